@@ -78,6 +78,17 @@ func TestVerifC10(t *testing.T) {
 	for _, ar := range vfGenAssets {
 		ws = append(ws, wref{gs, groot, ar})
 	}
+	// a server whose representation data comes from the metadata cache written by another instance: protection must not depend on it
+	{
+		meta := t.TempDir()
+		_ = vfNewServer(t, ServerConfig{VodRoot: vfBundledVod(), DrmCfgFile: drmCfg, RepDataRoot: meta, WriteRepData: true})
+		cs := vfNewServer(t, ServerConfig{VodRoot: vfBundledVod(), DrmCfgFile: drmCfg, RepDataRoot: meta})
+		for _, ar := range vfBundledAssets {
+			if ar.Path == "testpic_2s" && ar.MPD == "Manifest.mpd" || r.Thorough() {
+				ws = append(ws, wref{cs, vfBundledVod(), ar})
+			}
+		}
+	}
 	caseNo := 0
 	sampled := 0
 	var pacedJobs []func()
